@@ -317,6 +317,13 @@ impl Property for C03 {
                     );
                     return out;
                 }
+                if o.check_by_value != (t, t) {
+                    out.fail(
+                        "c03:wrong-verdict",
+                        format!("row {k}: {}: expected {} output {}: OutputValue::check(expected) = {}, ExpectedValue::check(output) = {}, should be {t}", o.name, o.expected, o.output, o.check_by_value.0, o.check_by_value.1),
+                    );
+                    return out;
+                }
                 if o.is_checked != (o.expected != ExpVal::X) {
                     out.fail("c03:is-checked", format!("row {k}: {}: expected {} => is_checked() = {}", o.name, o.expected, o.is_checked));
                     return out;
